@@ -401,6 +401,13 @@ func Check(s *Scenario, res *Result) *Report {
 	}
 	rep.BeforeShutdwn = res.AtShutdownCall
 
+	// ... nor after any further, concurrent Shutdown call returned
+	for i, n := range res.ExtraShutdownReturns {
+		if n != len(res.Writes) {
+			rep.violate("a further Shutdown call (no. %d, made while the first was at work) returned when the adapter had received %d of the %d calls: it did not wait for the lines logged before it", i+1, n, len(res.Writes))
+			return rep
+		}
+	}
 	// Shutdown clause: nothing may arrive after Shutdown returned.
 	if res.After200ms != res.AtShutdownReturn || len(res.Writes) != res.AtShutdownReturn {
 		rep.violate("the adapter had received %d calls when Shutdown returned and %d calls 200ms later: %d line(s) were written after Shutdown returned (first: %q)",
